@@ -146,14 +146,25 @@ fn replay_fl<F: Fl>(opts: &HashMap<String, String>) -> Value {
         }
         for (entry, target, exp_res, exp_len) in plan {
             for m in meths(rej.is_empty()) {
+              // the same builder value used twice (search_path twice, search_edges after search_nodes ..)
+              let repeats: &[bool] = if matches!(entry, Entry::SearchPath | Entry::SearchNodes | Entry::SearchEdges) && m != Meth::ForEach { &[false, true] } else { &[false] };
+              for &repeat in repeats {
                 let w = match guarded(|| World::<F>::build(&st, Some(&nval))) {
                     Guarded::Ok(Ok(w)) => w,
                     _ => continue, // the adjacency checks own this failure
                 };
-                let query = Query { kind, entry, target, transpose, meth: m };
-                let obs = run_query(&w, root, &query, &rej);
+                let query = Query { kind, entry, target, transpose, meth: m, repeat };
+                let mut obs = run_query(&w, root, &query, &rej);
                 n_exec += 1;
                 let exp_ex = hist_edges(hist, exp_len);
+                if repeat {
+                    // a pure traversal examines the same edges both times
+                    if let Some(e) = obs.examined.take() {
+                        let twice: Vec<Triple> = exp_ex.iter().chain(exp_ex.iter()).cloned().collect();
+                        obs.examined = if e == twice { Some(exp_ex.clone()) } else { None };
+                        if obs.examined.is_none() && obs.res == exp_res { obs.res = json!({"unsupported": "second use of the same builder examined different edges"}); }
+                    }
+                }
                 let ok = obs.res == exp_res && obs.examined.as_ref().map(|e| *e == exp_ex).unwrap_or(true);
                 // the graph must be untouched by a search
                 let unchanged = w.project_guarded().ok().as_ref() == Some(&st);
@@ -162,7 +173,7 @@ fn replay_fl<F: Fl>(opts: &HashMap<String, String>) -> Value {
                     st.hash(&mut h);
                     q.to_string().hash(&mut h);
                     case["nval"].to_string().hash(&mut h);
-                    (entry.name(), target, meth_name(m)).hash(&mut h);
+                    (entry.name(), target, meth_name(m), repeat).hash(&mut h);
                     nontrivial.insert(h.finish());
                 }
                 if ok && unchanged {
@@ -174,18 +185,19 @@ fn replay_fl<F: Fl>(opts: &HashMap<String, String>) -> Value {
                     }
                 } else {
                     n_mismatch += 1;
-                    let bucket = format!("{}|{}|{}|{}|{}|{}|{}|{}", kind.name(), q["dir"], cyc, entry.name(), meth_name(m), rej.len().min(2),
+                    let bucket = format!("{}|{}|{}|{}|{}|{}|{}|{}|{}", repeat, kind.name(), q["dir"], cyc, entry.name(), meth_name(m), rej.len().min(2),
                         if obs.res != exp_res { res_tag(&obs.res) } else { "examined-only" }, res_tag(&exp_res));
                     let cnt = per_bucket.entry(bucket).or_insert(0);
                     *cnt += 1;
                     if *cnt <= bucket_cap && mismatches.len() < max_viol {
                         mismatches.push(json!({"flavour": F::NAME, "out": st.out, "inn": st.inn, "nval": nval,
                             "kind": kind.name(), "root": root, "dir": q["dir"], "cyc": cyc, "rej": q["rej"],
-                            "target": target.unwrap_or(0), "entry": entry.name(), "meth": meth_name(m),
+                            "target": target.unwrap_or(0), "entry": entry.name(), "meth": meth_name(m), "builder_reused": repeat,
                             "res": obs.res, "rt": res_tag(&obs.res), "examined": obs.examined,
                             "expected_res": exp_res, "expected_examined": exp_ex, "graph_unchanged": unchanged}));
                     }
                 }
+              }
             }
         }
     })
@@ -329,7 +341,7 @@ fn record_fl<F: Fl>(opts: &HashMap<String, String>) -> Value {
                 };
                 (if rng.gen_bool(0.6) { Entry::SearchPath } else { Entry::Search }, t)
             };
-            let query = Query { kind, entry, target, transpose, meth };
+            let query = Query { kind, entry, target, transpose, meth, repeat: false };
             let obs = run_query(&w, root, &query, &rej);
             let mut rejv: Vec<Triple> = rej.iter().cloned().collect();
             rejv.sort();
